@@ -302,11 +302,11 @@ def run(tier, seed):
         if why is not None:
             kind = "tree-mutated" if c["mut"] else "property-fails"
             report(kind, {"kind": kind, "mount": c["kind"], "op": opname},
-                   {"oracle": why, "name": c["name"], "engine": c["engine"], "ops": c["ops"], "obs": c["obs"], "model_first_diff_op": j})
+                   {"oracle": why, "name": c["name"], "engine": c["engine"], "config": c.get("config"), "ops": c["ops"], "obs": c["obs"], "model_first_diff_op": j})
         else:
             op = c["ops"][j] if 0 <= j < len(c["ops"]) else None
             report("model-differs", {"kind": "model-differs", "mount": c["kind"], "op": op[0] if op else "?"},
-                   {"name": c["name"], "engine": c["engine"], "op_index": j, "op": op, "impl": c["obs"][j] if op else None,
+                   {"name": c["name"], "engine": c["engine"], "config": c.get("config"), "op_index": j, "op": op, "impl": c["obs"][j] if op else None,
                     "ops": c["ops"][:j + 1], "obs": c["obs"][:j + 1]}, no_input=True)
 
     # ---- 3. direct sys.FS cases ----
